@@ -486,6 +486,26 @@ def main(tier):
         cases.append(('h_mixing_matrix', [I(d), Buf('th', th), Buf('del', de), Buf('re', n=n), Buf('im', n=n)], ['re', 'im']))
         cases.append(('h_matrix_rotation', [I(2), I(d), Buf('a', av), Buf('ure', th), Buf('uim', de), Buf('o', n=n)], ['o']))
     generic_interp_vs_native(chk, h, cases)
+    # native special-magnitude battery (NOT solver-decided): angles so small that cos rounds to 1 while sin does not, and angles next to pi/2:
+    # the mixing matrix and the plane-rotation sequence must still describe the same transformation (exact reals cannot see a shortcut on cos==1)
+    worst_sm = (0.0, None)
+    for d in (2, 3, 4, 6):
+        n = d * d
+        for mag in (3e-9, 1e-8, 7e-10, math.pi / 2 - 1e-9):
+            th = [mag * (1 + 0.37 * ((k * 7) % 5)) if (k // d) < (k % d) else 0.0 for k in range(n)]
+            de = [0.3 + 0.11 * k if (k // d) < (k % d) else 0.0 for k in range(n)]
+            av = [0.4 + 0.05 * k for k in range(n)]
+            ret1, o1 = h.native('h_rotate_basis', [I(0), I(d), Buf('a', av), Buf('th', th), Buf('del', de), Buf('o', n=n)])
+            ret2, om = h.native('h_mixing_matrix', [I(d), Buf('th', th), Buf('del', de), Buf('re', n=n), Buf('im', n=n)])
+            ret3, o3 = h.native('h_matrix_rotation', [I(0), I(d), Buf('a', av), Buf('ure', om['re']), Buf('uim', om['im']), Buf('o', n=n)])
+            chk.cov['interp_vs_native']['cases'] += 1
+            dev = float(np.abs(np.array(o1['o']) - np.array(o3['o'])).max()) if ret1 == 0 and ret2 == 0 and ret3 == 0 else float('inf')
+            if dev > worst_sm[0]:
+                worst_sm = (dev, (d, mag))
+    chk.cov['native_special_magnitudes'] = {'worst |RotateToB1 - Rotate(GetTransformationMatrix)|': worst_sm[0]}
+    if worst_sm[0] > 1e-13:
+        chk.report('basis:special-magnitude', 'for mixing angles of magnitude %.3g in dimension %d, RotateToB1 and Rotate(GetTransformationMatrix) differ by %.3g (both are exact to rounding for ordinary angles) [found by the native battery, not by the solver]' % (
+            worst_sm[1][1], worst_sm[1][0], worst_sm[0]), {'d': worst_sm[1][0], 'angle magnitude': worst_sm[1][1], 'kind': 'special'})
     with Pool(min(16, os.cpu_count() or 1)) as pool:
         results = pool.map(work, items, chunksize=1)
     for w in results:
